@@ -517,7 +517,7 @@ pub fn mon_c09(_cfg: &Cfg, obs: &Obs, viols: &mut Vec<Viol>) {
     let rt = matches!(
         obs.op,
         Op::P | Op::Px | Op::PM(_, _) | Op::R(_, _) | Op::Ra(_, _) | Op::C(_) | Op::Z
-    ) || matches!(obs.op, Op::Bad(b) if !matches!(b, Bad::WrapMaskLen(_) | Bad::WrapPartialMaskLen(_)));
+    ) || matches!(obs.op, Op::Bad(b) if !matches!(b, Bad::WrapMaskLen(_) | Bad::WrapPartialMaskLen(_) | Bad::WrapInChans(_) | Bad::WrapInShort(_, _) | Bad::WrapPartialInChans(_)));
     if rt && obs.alloc.total() != 0 && !matches!(obs.res, Res::Panic(_)) {
         let what = match obs.op {
             Op::P | Op::Px | Op::PM(_, _) => "process_into_buffer",
@@ -560,12 +560,14 @@ pub fn mon_c13(
     };
     // expected error
     let (variant, fields): (&str, Vec<(&str, f64)>) = match bad {
-        Bad::InChans(d) => ("WrongNumberOfInputChannels", vec![("expected", n), ("actual", adj(d))]),
+        Bad::InChans(d) | Bad::WrapInChans(d) | Bad::WrapPartialInChans(d) => {
+            ("WrongNumberOfInputChannels", vec![("expected", n), ("actual", adj(d))])
+        }
         Bad::OutChans(d) => ("WrongNumberOfOutputChannels", vec![("expected", n), ("actual", adj(d))]),
         Bad::MaskLen(d) | Bad::WrapMaskLen(d) | Bad::WrapPartialMaskLen(d) => {
             ("WrongNumberOfMaskChannels", vec![("expected", n), ("actual", adj(d))])
         }
-        Bad::InShort(c, how) => (
+        Bad::InShort(c, how) | Bad::WrapInShort(c, how) => (
             "InsufficientInputBufferSize",
             vec![
                 ("channel", c as f64),
@@ -605,6 +607,9 @@ pub fn mon_c13(
         Bad::WrapMaskLen(_) => "wrapmasklen",
         Bad::WrapPartialMaskLen(_) => "wrappartialmasklen",
         Bad::InShort(_, _) => "inshort",
+        Bad::WrapInChans(_) => "wrapinchans",
+        Bad::WrapInShort(_, _) => "wrapinshort",
+        Bad::WrapPartialInChans(_) => "wrappartialinchans",
         Bad::OutShort(_, _) => "outshort",
         Bad::MaskedInShort(_, _) => "maskedinshort",
         Bad::MaskedOutShort(_, _) => "maskedoutshort",
@@ -612,7 +617,7 @@ pub fn mon_c13(
     // an OutShort on a resampler whose next output is 0 frames is not malformed
     let vacuous = match bad {
         Bad::OutShort(_, _) | Bad::MaskedOutShort(_, _) => obs.before.out_next == 0,
-        Bad::InShort(_, _) | Bad::MaskedInShort(_, _) => obs.before.in_next == 0,
+        Bad::InShort(_, _) | Bad::MaskedInShort(_, _) | Bad::WrapInShort(_, _) => obs.before.in_next == 0,
         _ => false,
     };
     if vacuous {
